@@ -21,10 +21,11 @@ struct FaultSpec {
     int budget_errno = 28;         // ENOSPC
     int64_t fail_write_call = -1;  // n-th (1-based) write call of this op returns -1/fail_errno
     int fail_errno = 5;            // EIO
+    bool dest_is_dir = false;      // the destination path of this save is an existing directory (open: EISDIR; rename onto it: EISDIR)
     // benign faults (percent of calls), driven by benign_seed
     uint64_t benign_seed = 0;
     unsigned short_write_pct = 0, eintr_pct = 0, short_read_pct = 0;
-    bool any_hard() const { return open_errno || byte_budget >= 0 || fail_write_call >= 0; }
+    bool any_hard() const { return open_errno || byte_budget >= 0 || fail_write_call >= 0 || dest_is_dir; }
     bool any_benign() const { return short_write_pct || eintr_pct || short_read_pct; }
 };
 
@@ -50,6 +51,7 @@ bool disk_get(const std::string &path, std::vector<uint8_t> &bytes);
 bool disk_exists(const std::string &path);
 void disk_remove(const std::string &path);
 void disk_clear_prefix(const std::string &prefix);
+void disk_set_dir(const std::string &path, bool isDir); // simulated disk: mark a path as an existing directory
 void disk_mkdirs(const std::string &dir);            // no-op on the simulated disk
 
 // Begin/end an operation on the calling thread. While an op is open, every simulated
